@@ -331,7 +331,19 @@ func (w *World) CheckConservation(n *Node) {
 					own = true
 				}
 			}
+			twice := ""
+			seenTrx := map[H]H{}
+			for _, h := range spends[addr] {
+				if v, ok := s.Vertex(h); ok {
+					if o, dup := seenTrx[v.Transaction.Hash]; dup {
+						twice = fmt.Sprintf("transaction %s is confirmed in vertex %s and in vertex %s", Hex(v.Transaction.Hash), Hex(o), Hex(h))
+					}
+					seenTrx[v.Transaction.Hash] = h
+				}
+			}
 			switch {
+			case twice != "" && !own:
+				w.Violate("C02", "overdrawn/one-transaction-confirmed-twice", fmt.Sprintf("node %s: over all confirmed vertices wallet %s received %s and spent %s: %s, the one spend is counted twice", n.Name, w.NameOf(addr), f.in, f.out, twice))
 			case own:
 				w.Violate("C02", "overdrawn/own-history", fmt.Sprintf("node %s: over all confirmed vertices wallet %s received %s and spent %s, and one of its confirmed spends was not covered even in its own history", n.Name, w.NameOf(addr), f.in, f.out))
 			case serial:
